@@ -15,6 +15,7 @@
 #include <pistache/stream.h>
 
 #include <iterator>
+#include <limits>
 #include <optional>
 #include <unordered_map>
 
@@ -66,6 +67,10 @@ namespace Pistache::Http
                     for (size_t i = 0; i < len; ++i)
                     {
                         if (!isdigit(str[i]))
+                            throw std::invalid_argument("Invalid conversion");
+
+                        // a value that does not fit is invalid, not an overflow
+                        if (ret > (std::numeric_limits<int>::max() - (str[i] - '0')) / 10)
                             throw std::invalid_argument("Invalid conversion");
 
                         ret *= 10;
